@@ -8,26 +8,41 @@ PROPS_FILES = ["Gama/Props/C17.lean"]
 LEAN_TARGETS = ["Gama.Props.C17"]
 DRIVERS = ["drv_statan"]
 RULE = ("ops normal/student/chi/nd/ks; alpha: fixed grid 0.0005..0.9995 (accuracy, against mpmath at 30 digits) plus seeded "
-        "random alphas, log-spaced 1e-12..0.5 and mirrored (monotone/finite); dof 1..30, 40, 60, 120, 1000, 1e4, 1e6; "
-        "x in [-40,40] incl. branch points 0, +-2.32, +-3.5; distinct = distinct op line; non-trivial = alpha != 0.5 / x != 0")
+        "random alphas, log-spaced 1e-12..0.5 and mirrored (monotone/finite); dof 1..30, 40, 60, 120, 1000, 1e4, 1e6; chi-square "
+        "lower critical values p in (0.5, 0.9995] x n = 3..8 (fixed + seeded); NormalDistribution x in [-40,40] with every branch "
+        "region populated: power series [-2.32, 3.5], continued fraction WITH the maxd/mind rescaling [-2.80, -2.32) (counted by a "
+        "replica of the loop; inconclusive if fewer than 20 rescaled cases), continued fraction without rescaling, density "
+        "underflow |x| > 38.6, branch points 0, +-2.32, +-3.5; distinct = distinct op line; non-trivial = alpha != 0.5 / x != 0")
 TRUSTED = ["mpmath 30-digit erfc / regularised incomplete beta and gamma (quadrature of the density for dof > 5000) as the "
            "reference distribution functions (tools/gen/c17_ref.py, run with python3-vt)"]
 MODELLED = ["libm exp/log/pow/sqrt/sin/cos (shared by model execution and C++)",
             "IEEE rounding (theorems are about the same formulas over the reals)",
-            "termination of the series / continued-fraction loops of NormalDistribution (fuel 1e8 in the driver; never exhausted)"]
+            "exit of the power-series loop of NormalDistribution: over R its test D - s <= 0 never fires (proved); in floating point "
+            "it fires by absorption. The model takes fuel (1e8 in the driver, never exhausted); over R fuel = number of terms, with a "
+            "proved truncation bound. The continued-fraction loop provably stops within 1e5 passes over R."]
 ASSUMPTIONS = ["0 < alpha < 1, N >= 1 (the functions do not check their arguments)"]
 LEVEL = "proof"
-LEVEL_TEXT = ("PARTIAL. Lean 4 theorems over R about a line-by-line model of statan.cpp: Normal(1-a) = -Normal(a), Student "
-              "antisymmetry and Student(1/2,N) = 0, the closed forms N = 1 (Cauchy tail 1/2 - arctan(t)/pi = a), N = 2, chi-square "
-              "n = 2 (exp(-x/2) = p) and n = 1 (= Normal(p/2)^2) are exact inverses, and no singular operation (zero denominator, "
-              "log of a non-positive, root of a negative number) in Normal, in Student for N <= 2 and its Hill prelude for N >= 3, "
-              "in Chi_square, for all a in (0,1). Model tied to the C++ by correspondence at Float (bit-identical in practice). "
-              "The ACCURACY clauses (1e-6 / 5e-4 / 5e-3), MONOTONICITY and NormalDistribution(Normal(a)) = 1 - a are NOT proved "
-              "(Mathlib has no verified enclosures of the normal/Student/chi-square distribution functions): they are searched "
-              "on every run against mpmath references on the grid stated in the rule.")
-LEVEL_NOTE = ("partial: accuracy, monotonicity, Phi o Normal = id are explored (mpmath), not proved. Denominators inside the "
-              "continued fraction of NormalDistribution and in the two Hill branches of Student (N >= 3) are not proved non-zero.")
-TECHNIQUE = "Lean 4 proof (closed forms, symmetry, definedness) + model/implementation correspondence + mpmath reference search"
+LEVEL_TEXT = ("PARTIAL. Lean 4 theorems over R about a line-by-line model of statan.cpp whose decision fragments (loop exit tests, "
+              "the maxd/mind rescaling block, the Chi_square selector and polynomials) are regenerated from the C++ on every run: "
+              "Normal(1-a) = -Normal(a), Student antisymmetry and Student(1/2,N) = 0; the closed forms N = 1 (Cauchy tail "
+              "1/2 - arctan(t)/pi = a), N = 2, chi-square n = 2 (exp(-x/2) = p) and n = 1 (= Normal(p/2)^2) are exact inverses and "
+              "strictly monotone (n = 1 given monotone Normal; the start value of Normal is proved monotone); no singular operation "
+              "in Normal, in Chi_square, in Student (N <= 2; N >= 3: prelude, first Hill divisor for every x <= 1 i.e. under the "
+              "stated bound -1 <= Normal, second Hill divisor for N <= 10000 - over R it does vanish for N > 29560). "
+              "NormalDistribution: the rescaling leaves every convergent unchanged (rescale_invariant), continued-fraction invariant "
+              "(positive denominators, decreasing positive convergents, gap <= 6 e0/((k+1)(k+2)(k+3))), the loop stops within 1e5 "
+              "passes so every fuel >= 1e5 gives the same value, range of the computed tail, power series = partial sum with a "
+              "geometric truncation bound (its exit test never fires over R), D(-x) = 1 - D(x) where both signs take the same branch; "
+              "the Chi_square selector depends on |t| only. Model tied to the C++ by translation of the fragments + correspondence at "
+              "Float (bit-identical in practice). "
+              "The ACCURACY clauses (1e-6 / 5e-4 / 5e-3), MONOTONICITY beyond the closed forms and NormalDistribution(Normal(a)) = 1 - a "
+              "are NOT proved (Mathlib has no verified enclosures of the normal/Student/chi-square distribution functions): they are "
+              "searched on every run against mpmath references on the grid stated in the rule.")
+LEVEL_NOTE = ("partial: accuracy, monotonicity (Hill branches, chi-square n >= 3, iterated Normal), Phi o Normal = id are explored "
+              "(mpmath), not proved. The limit of the series / continued fraction is not identified with Phi. Second Hill divisor "
+              "only for N <= 10000. D(-x) = 1 - D(x) is exact only outside 2.32 < |x| <= 3.5.")
+TECHNIQUE = ("Lean 4 proof (closed forms, symmetry, monotone closed forms, definedness, loop invariant/termination/truncation, "
+             "rescale invariance) + translator for the decision fragments + model/implementation correspondence + mpmath reference search")
 
 TOL = {"normal": 1e-6, "student": 5e-4, "chi": 5e-3}
 DOFS = list(range(1, 31)) + [40, 60, 120, 1000, 10000, 1000000]
@@ -63,6 +78,42 @@ def reference(ctx, queries):
     if p.returncode != 0:
         raise BuildError("c17_ref.py (mpmath)", p.stderr[-2000:])
     return [float(v) for v in json.loads(p.stdout)]
+
+
+def cf_replica(x):
+    """replica (Python floats = IEEE doubles, same operations) of the branch selection and of the continued-fraction loop
+    of NormalDistribution: returns (region, passes, rescales); used only to count which regions the stream populates"""
+    if x == 0:
+        return ("zero", 0, 0)
+    typv = x <= 0
+    b = abs(x)
+    x2 = x * x
+    f = 0.3989422804014327 * math.exp(-0.5 * x2)
+    if f / b <= 0:
+        return ("underflow", 0, 0)
+    if b - (2.32 if typv else 3.5) <= 0:
+        return ("series", 0, 0)
+    a1, a2, t = 2.0, 0.0, x2 + 3
+    p1, q1, p2, q2 = f, b, (t - 1) * f, t * b
+    r, D = p1 / q1, p2 / q2
+    if not typv:
+        r, D = 1 - r, 1 - D
+    n = k = 0
+    while True:
+        t += 4; a1 -= 8; a2 += a1
+        s = a2 * p1 + t * p2; p1 = p2; p2 = s
+        s = a2 * q1 + t * q2; q1 = q2; q2 = s
+        if q2 > 1e30:
+            q1 *= 1e-30; q2 *= 1e-30; p1 *= 1e-30; p2 *= 1e-30
+            k += 1
+        r = D
+        D = p2 / q2
+        if not typv:
+            D = 1 - D
+        n += 1
+        if not (abs(r - D) > 2.220446049250313e-16) or n > 100000:
+            break
+    return ("cf-rescaled" if k else "cf", n, k)
 
 
 def alphas_mono(n):
@@ -123,6 +174,12 @@ def check(ctx, corr, w, scale, with_model=True):
         for n in DOFS:
             ops.append(f"student {hx(a)} {n}"); meta.append(("student", a, n))
             ops.append(f"chi {hx(a)} {n}"); meta.append(("chi", a, n))
+    # chi-square LOWER critical values (p > 0.5) for the small dof where the selector / the small-n polynomial matter
+    lower = [0.55, 0.7, 0.8, 0.9, 0.95, 0.9675, 0.975, 0.98, 0.99, 0.995, 0.997, 0.999, 0.9995]
+    lower += [round(rng.uniform(0.5, 0.9995), 6) for _ in range(10 * scale)] + [round(1 - 10 ** rng.uniform(-3.3, -1), 6) for _ in range(6 * scale)]
+    for a in lower:
+        for n in range(3, 9):
+            ops.append(f"chi {hx(a)} {n}"); meta.append(("chi", a, n))
     for f in sorted((ctx.verif / "corpus" / "C17").glob("*.txt")) if (ctx.verif / "corpus" / "C17").exists() else []:
         for l in f.read_text().split("\n"):
             t = l.split()
@@ -157,6 +214,7 @@ def check(ctx, corr, w, scale, with_model=True):
             queries.append([name, repr(xx)] + ([n] if kind != "normal" else []))
         qmeta.append((kind, a, n, aa, v, op))
     ref = reference(ctx, queries)
+    corr.count("chi_lower_critical_n3_8", sum(1 for (kind, a, n, aa, v, op) in qmeta if kind == "chi" and a > 0.5 and 3 <= n <= 8))
     for i, (kind, a, n, aa, v, op) in enumerate(qmeta):
         hi, mid, lo = ref[3 * i], ref[3 * i + 1], ref[3 * i + 2]      # tail is decreasing in x
         tol = TOL[kind]
@@ -214,6 +272,22 @@ def check(ctx, corr, w, scale, with_model=True):
     # ---------------- NormalDistribution: vs mpmath on [-40, 40]; NormalDistribution(Normal(a)) = 1 - a
     xs = [0.0, -0.0, 2.32, -2.32, 3.5, -3.5, 2.3200000000000003, 3.5000000000000004, 1e-300, -1e-300, 40.0, -40.0, 38.5, -38.5, 8.3, -8.3]
     xs += [rng.uniform(-40, 40) for _ in range(60 * scale)] + [rng.uniform(-6, 6) for _ in range(60 * scale)]
+    # every branch region of NormalDistribution: series on both sides, continued fraction with the maxd/mind rescaling
+    # (x in about [-2.80, -2.32): many passes, q2 exceeds 1e30), continued fraction without rescaling, density underflow
+    xs += [-2.3200000000000003, -2.33, -2.4, -2.5, -2.6, -2.7, -2.75, -2.79, -2.8, -2.801, -2.802, -2.81, -2.9, -3.0, 3.51, 3.6, 4.0,
+           -38.4, 38.4, -38.7, 38.7, -39.0, 39.0, 1e-8, -1e-8, 0.5, -0.5, 2.0, -2.0, 3.4, -2.31]
+    xs += [rng.uniform(-2.80, -2.3201) for _ in range(40 * scale)]                 # rescaling fires
+    xs += [rng.uniform(-2.32, 0) for _ in range(15 * scale)] + [rng.uniform(0, 3.5) for _ in range(15 * scale)]   # power series
+    xs += [-rng.uniform(2.81, 8) for _ in range(15 * scale)] + [rng.uniform(3.5, 8) for _ in range(15 * scale)]   # cf, few passes
+    xs += [rng.choice([-1, 1]) * rng.uniform(8, 38.6) for _ in range(10 * scale)]                                # far tails
+    maxpass = 0
+    for x in xs:
+        reg, npass, nres = cf_replica(x)
+        corr.count("nd_region_" + reg)
+        maxpass = max(maxpass, npass)
+    corr.maxstat("nd_cf_max_passes", maxpass)
+    if sum(1 for x in xs if cf_replica(x)[0] == "cf-rescaled") < 20:
+        corr.inconclusive.append("fewer than 20 NormalDistribution arguments made the maxd/mind rescaling fire")
     ops = ["nd " + hx(x) for x in xs]
     out = w.run_ops(ops, with_model)
     ref = reference(ctx, [["ncdf", repr(x)] for x in xs])
